@@ -5,5 +5,5 @@ CONSTANTS
   MaxFaults = 1
   FaultsOf <- MC_FaultsOf
   AsIs = {}
-INVARIANTS TypeOK C07_SecureImpliesChain C07_InsecureOnlyProven C07_TamperNeverDowngrades C07_NegSecure C07_AD C07_DepthBounded ModelComplete
+INVARIANTS NeverAD
 CHECK_DEADLOCK FALSE
